@@ -304,6 +304,31 @@ theorem meadowsSegments_eq (pets : List Str) (fpath : Str) :
         · simp [hd, hp]
         · simp [hd, hp]
 
+/-- the keep-test of the json loop, as the source spells it, is equality of the stimulus *lists* -/
+theorem sameStim_eq (a b : List Str) : sameStim mlJsonSame a b = (a == b) := by
+  have h : mlJsonSame = 1 := by decide
+  simp [sameStim, h]
+
+theorem jsonLoop_eq {α : Type} : ∀ (ts : List (JTask α)) (t : Nat) (utvs : List (List α))
+    (stim tn : List Str) (ti : List Nat),
+    Src.jsonLoop ts t utvs stim tn ti = Importers.jsonLoop ts t utvs stim tn ti
+  | [], _, _, _, _, _ => rfl
+  | task :: rest, t, utvs, stim, tn, ti => by
+    have i1 := jsonLoop_eq rest (t + 1) utvs stim tn ti
+    have i2 := jsonLoop_eq rest (t + 1) (utvs ++ [task.rdm]) task.stimuli (tn ++ [task.name]) (ti ++ [t])
+    have i3 := jsonLoop_eq rest (t + 1) (utvs ++ [task.rdm]) stim (tn ++ [task.name]) (ti ++ [t])
+    unfold Src.jsonLoop at i1 i2 i3 ⊢
+    unfold jsonLoopBy Importers.jsonLoop
+    simp only [sameStim_eq, i1, i2, i3]
+    by_cases h : stim = task.stimuli <;> simp [h]
+
+theorem compsJson_eq {α : Type} (info : MInfo) (tasks : Option (List (JTask α))) :
+    Src.compsJson info tasks = Importers.compsJson info tasks := by
+  unfold Src.compsJson compsJsonBy Importers.compsJson
+  have := @jsonLoop_eq α
+  unfold Src.jsonLoop at this
+  simp only [this]
+
 /-! ### SPM -/
 
 theorem parseRegName_eq (s : Str) : Src.parseRegName s = Importers.parseRegName s := by
